@@ -2347,6 +2347,15 @@ def m_opt_eq(E, st, fid, t, args, dest_ty):
     return out
 
 
+@model(['core::tuple::<impl core::cmp::PartialEq for (U, T)>::eq'],
+       'structural == of two pairs of plain data (size hints); anything else: the generic treatment')
+def m_tuple_eq(E, st, fid, t, args, dest_ty):
+    pe = E.plain_eq(st, args[0], args[1])
+    if pe is not None:
+        return ret(st, pe)
+    return E.opaque_call(st, fid, t, args, dest_ty)
+
+
 @model(['core::cmp::impls::<impl core::cmp::PartialEq<&B> for &A>::eq',
         'core::cmp::impls::<impl core::cmp::PartialEq<&B> for &A>::ne',
         '?core::cmp::PartialEq::eq', '?core::cmp::PartialEq::ne'],
